@@ -305,6 +305,9 @@ func (r *pwRun) netAction(rnd *core.Rand, faults bool) (bool, *core.Violation) {
 		if roll < r.cs.Drop {
 			r.out.Faults["msg_drop"]++
 			r.window["drop"] = true
+			if r.dbg {
+				fmt.Printf("[t=%s] DROP %s n%d->n%d term %d entries %d\n", time.Now().Format("04:05.000"), m.typ, m.from, m.to, m.term, m.nent)
+			}
 			return true, nil
 		}
 		if roll < r.cs.Drop+r.cs.Dup {
@@ -1245,6 +1248,7 @@ func (r *pwRun) closing() *core.Violation {
 			return v
 		}
 	}
+	tStop := time.Now() // from here on no fault is injected
 	if r.pending != nil {
 		call := r.pending
 		if v := r.runUntil(pwCallWait, rnd, false, call.finished); v != nil {
@@ -1295,10 +1299,67 @@ func (r *pwRun) closing() *core.Violation {
 			return v
 		}
 	}
+	// Client calls that had no outcome within 45 s WHILE FAULTS FLOWED are judged only now, and only
+	// once they have had 45 s without any fault (bounded liveness is never judged inside the fault
+	// window: a store whose raft group has no leader keeps the call in WriteToRaft's
+	// `proposeC <- data` - no timeout covers that stage - and a proposal made right after the heal
+	// may still be inside its WaitCommitTimeout when the probe write is acknowledged; the first
+	// version judged at that instant, 1 - 9 s after the heal: a false alarm).  The real coordinator
+	// gives up on its own after shard-writer-timeout; the simulated one waits for the store.
+	anyOpen := func() bool {
+		for _, c := range r.stuck {
+			if !c.finished() {
+				return true
+			}
+		}
+		return false
+	}
+	if anyOpen() {
+		r.out.Stats["closing_waits_for_calls_without_outcome"]++
+		if left := pwCallWait - time.Since(tStop); left > 0 {
+			if v := r.runUntil(left, rnd, false, func() bool { return !anyOpen() }); v != nil {
+				return v
+			}
+		}
+		if !anyOpen() {
+			how := ""
+			for _, c := range r.stuck {
+				switch {
+				case c.acked:
+					how += fmt.Sprintf(" %d:acked", c.id)
+					r.out.Stats["calls_without_outcome_acked_after_the_heal"]++
+				case errno.Equal(c.err, errno.WriteToRaftTimeoutAfterPropose):
+					how += fmt.Sprintf(" %d:commit_timeout", c.id)
+					r.out.Stats["calls_without_outcome_timed_out_after_the_heal"]++
+				default:
+					how += fmt.Sprintf(" %d:error", c.id)
+					r.out.Stats["calls_without_outcome_failed_after_the_heal"]++
+				}
+			}
+			r.out.Probes["call without outcome during the faults ended after the heal"]++
+			r.logf("closing: the calls without outcome had all ended %dms after the faults stopped:%s", time.Since(tStop)/time.Millisecond, how)
+		}
+	}
 	for _, c := range r.stuck {
 		if !c.finished() {
-			v := pviol("no_progress_after_heal", fmt.Sprintf("client write %d (issued at step %d) has had no outcome for more than %v", c.id, c.issuedOp, pwCallWait),
+			v := pviol("no_progress_after_heal", fmt.Sprintf("client write %d (issued at step %d) has had no outcome for more than %v after the faults stopped", c.id, c.issuedOp, pwCallWait),
 				map[string]string{"what": "stuck_call"})
+			// where the store-side call stands (goroutine dump of this process): matcher attribute and evidence
+			at, stacks := pwStuckCalls()
+			v.Attrs["stuck_at"] = at
+			where := ""
+			r.c.net.mu.Lock()
+			for sgi := 0; sgi < 2; sgi++ {
+				if ps := r.proposed[c.id*4+sgi]; len(ps) > 0 {
+					last := ps[len(ps)-1]
+					cur := r.c.nodes[last[0]]
+					where += fmt.Sprintf("; its last attempt (of %d) went to node %d, cluster-wide incarnation %d (that incarnation is alive: %v)",
+						len(ps), last[0], last[1], cur != nil && cur.gen == last[1] && cur.alive)
+				}
+			}
+			r.c.net.mu.Unlock()
+			v.Detail += fmt.Sprintf("%s; the probe write of the closing phase was acknowledged meanwhile: %v (raft leader seen last: node %d term %d)\n%s",
+				where, call.finished() && call.acked, r.leaderHint, r.leaderTerm, stacks)
 			if v = r.over(v, "closing"); v != nil {
 				return v
 			}
